@@ -185,6 +185,11 @@ func c14(tier string) []*explore.Scenario {
 	for _, p := range pairs {
 		out = append(out, c14One([][2]string{p[0], p[1]}, bound-1+0))
 	}
+	// batches of RPCs in flight at once (all kinds, mixed outcomes), repeated from the state the previous batch left
+	out = append(out, c14Batch(8, 3, 1), c14Batch(16, 2, 0), c14Batch(32, 2, 0))
+	if tier == "thorough" {
+		out = append(out, c14Batch(8, 2, 2), c14Batch(32, 3, 1))
+	}
 	n := 2000
 	if tier == "thorough" {
 		n = 50000
@@ -231,6 +236,56 @@ func c14One(rpcs [][2]string, bound int) *explore.Scenario {
 			vsched.Quiesce()
 			if !d.ServeDone {
 				vsched.Fail(fam+"|serve-hang", "after %v: Serve does not return when the connection closes (a stream registration leaked?): %s", rpcs, threadList())
+			}
+		},
+	}
+}
+
+// c14Batch: `rounds` batches of k RPCs started together (kinds and outcomes
+// cycling), the connection quiescing in between; after every batch the
+// connection is back in its idle state.
+func c14Batch(k, rounds, bound int) *explore.Scenario {
+	fam := "C14/release"
+	return &explore.Scenario{
+		Name: fmt.Sprintf("C14/batch/k=%d/rounds=%d/d=%d", k, rounds, bound), Family: fam, Prop: "C14", Bound: bound, Horizon: time.Hour, SelectCost: true,
+		Run: func() {
+			w := env.NewWorld()
+			d := env.NewDirect(w, env.DirectOpts{Pipe: env.PipeOpts{Cap: 256}})
+			d.Pipe.Tap = nil
+			vsched.Settle()
+			idle := c14State(d)
+			vsched.Explore(true)
+			kinds := []string{"Unary", "Bidi", "SStream", "CStream"}
+			outcomes := []string{"ok", "herr", "cancel1", "deadline", "reset", "cancel0", "ok", "cancel2", "lateempty", "cancelsend"}
+			n := 0
+			for round := 0; round < rounds; round++ {
+				var mix []string
+				for i := 0; i < k; i++ {
+					kind, o := kinds[n%4], outcomes[(n/4+n)%len(outcomes)]
+					if kind == "Unary" && o != "ok" && o != "herr" && o != "deadline" {
+						o = "cancel0"
+					}
+					tag := fmt.Sprintf("b%d", n)
+					n++
+					mix = append(mix, kind+":"+o)
+					vsched.GoNamed("rpc-"+tag, func() { c14RPC(w, d, kind, o, tag) })
+				}
+				vsched.QuiesceTime()
+				if st := c14State(d); st != idle {
+					vsched.Fail(fam+"|not-idle:"+diffKey(idle, st)+"|batch", "after batch %d of %d concurrent RPCs (%v) the connection did not return to its idle state:\n%s", round, k, mix, diffStates(idle, st))
+					return
+				}
+			}
+			vsched.Obs("%d batches of %d: idle after each", rounds, k)
+			p := w.Rec("probe", "Unary")
+			vsched.GoNamed("probe", func() { w.CallUnary(d.CC, context.Background(), p, "x") })
+			vsched.Quiesce()
+			checkUnary(p, "x", fam)
+			d.Pipe.A.Break()
+			d.Pipe.B.Break()
+			vsched.Quiesce()
+			if !d.ServeDone {
+				vsched.Fail(fam+"|serve-hang", "after %d batches of %d RPCs: Serve does not return when the connection closes: %s", rounds, k, threadList())
 			}
 		},
 	}
